@@ -720,6 +720,14 @@ theorem inv_fire {c : Cfg} (h : Inv c) (l : Label) : Inv (fire c l) := by
     simp only [fire]; split
     · next m heq => exact inv_doCancel h heq j
     · exact h
+  | promote j =>
+    simp only [fire]; split
+    · next m heq =>
+      unfold doPromote
+      split
+      · exact h
+      · exact Inv.mkLive rfl h.st h.main h.fin (((h.live m _ heq).waiting _).of_eq rfl rfl)
+    · exact h
 
 theorem inv_foldl (ls : List Label) : ∀ c, Inv c → Inv (ls.foldl fire c) := by
   induction ls with
